@@ -171,6 +171,11 @@ class Check:
             "known_findings_reproduced": self.known_hits,
             "notes": self.notes,
         }
+        try:
+            import pdfminer
+            cov["pdfminer_path"] = os.path.dirname(pdfminer.__file__)
+        except Exception:
+            pass
         cov.update(self.extra)
         ev = {
             "property_id": self.pid, "tier": self.tier, "seed": self.seed, "level": self.level,
